@@ -239,7 +239,7 @@ GRID = {"h_deco": _grid}
 
 def jobs(tier):
     q = tier == "quick"
-    T = 200 if q else 900
+    T = 400 if q else 900
     J = []
 
     def add(**part):
